@@ -129,7 +129,7 @@ def marks_allowed(model, parent, nodes):
     return all(model.allows_mark(parent, m["type"]) for n in nodes for m in n.get("marks") or [])
 
 
-def check_predicates_on_node(c, nj_, pool, live_pool, res, size):
+def check_predicates_on_node(c, nj_, pool, live_pool, res, size, extra_others=None):
     """can_replace / can_replace_with / can_append on one (valid) node."""
     model = c.model
     tname = nj_["type"]
@@ -208,7 +208,7 @@ def check_predicates_on_node(c, nj_, pool, live_pool, res, size):
                         res.violate("c07.can_replace_with", {**base, "from": frm, "to": to, "type": t2, "marks": ms},
                                     got, want, size=size)
     # can_append with every pool node and with nodes of the same document
-    for oj, ol in zip(pool, live_pool):
+    for oj, ol in [*zip(pool, live_pool), *(extra_others or [])]:
         if oj["type"] == "text":
             continue
         res.transitions += 1
@@ -471,13 +471,18 @@ def run_unit(u):
                 check_validity(c, mj, res, size, tag)
                 nmut += 1
             stack = [d]
+            fresh = []
             while stack:
                 x = stack.pop()
                 k = jkey(x)
                 if k not in seen_nodes:
                     seen_nodes.add(k)
-                    check_predicates_on_node(c, x, pool, live_pool, res, size)
+                    fresh.append(x)
                 stack.extend(x.get("content") or [])
+            for x in fresh:
+                # `other` candidates for can_append: the non-text nodes of this document (marked content included)
+                others = [(o, raw_node(c, o)) for o in fresh if o["type"] != "text"][:12]
+                check_predicates_on_node(c, x, pool, live_pool, res, size, others)
         if docs:
             res.sample({"schema": c.id, "doc": docs[-1], "pool": pool[:3]})
         res.scopes.append({"unit": u["name"], "docs": len(docs), "mutants": nmut, "distinct_nodes": len(seen_nodes),
@@ -515,6 +520,16 @@ def run_unit(u):
                         engine.kick(20)
                         check_validity(c, d, res, len(ms), "fmarks")
                         res.states += 1
+            # block containers that name specific marks: marked block children
+            for box in ("box", "box_A", "box_grp"):
+                for ms in lists:
+                    blk = {"type": "paragraph"}
+                    if ms:
+                        blk["marks"] = ms
+                    d = {"type": "doc", "content": [{"type": box, "content": [blk]}]}
+                    engine.kick(20)
+                    check_validity(c, d, res, len(ms), "fmarks-box")
+                    res.states += 1
         res.sample({"schema": u["ids"][0] if u["ids"] else None, "family": "F-marks"})
         res.scopes.append({"unit": u["name"], "configurations": len(u["ids"]), "completed": True})
     engine.disarm()
